@@ -1,6 +1,7 @@
 package main
 
-// c08extra.go — C08 over sources the engine model cannot name (its FROM paths are key paths): selector paths that
+// c08extra.go — C08 over selector sources, observed on the real code alone (the model-vs-code cases over such sources
+// are the stream r5_c08.go, From kind "sel"): selector paths that
 // KEEP the dimensions of a multi-dimensional array (`n[keep=>each]`, `grid[keep=>each:0]`, kept slices, a kept
 // selection continued with `::`), next to plain keys, key paths and flattening selectors that still resolve to an
 // array of arrays. OBSERVATIONAL / METAMORPHIC stage: the property's own statement is checked on the real code.
